@@ -1,7 +1,10 @@
 #!/usr/bin/env python3
 """C30: turn TLC's state graph of tla/Assoc.tla into an automaton over observable events.
 
-  graph2nfa.py build  <Assoc.dot> <out.json> [--log <tlc stdout>]   write graph + NFA as JSON
+  graph2nfa.py build  <Assoc.dot> <out.json> [--conf TRUE|FALSE] [--log <tlc stdout>]
+                                                                    write graph + NFA as JSON for the part of the
+                                                                    graph reachable from the initial state with that
+                                                                    mode (default FALSE = general mode)
   graph2nfa.py accept <out.json> [--complete] ev ev ...             exit 0 iff the event trace is a behaviour
   graph2nfa.py paths  <out.json> <k> [--count]                      every path of <= k steps from the initial
                                                                     state that cannot be extended within k
@@ -17,9 +20,11 @@ An action stands for a fixed list of observable events (table EVENTS; the vocabu
   close(s)      s's end of the connection was closed (close(), shutdown() or drop)
   eof(s)        a read of s returned 0 bytes
 
-The order inside one list is the order in which the real code produces the events (e.g. release() closes
-*before* it returns Ok, while after a failed release the connection is closed when the consumed object is
-dropped, i.e. after the return).  The NFA has one chain of fresh states per edge; every state is accepting
+The order inside one list is the order in which an observer of the real code sees the events: release()
+and abort() consume the association object, so the connection is closed (explicitly, or because the object
+is dropped at the end of the call) *before* the caller sees the result; what release() took is known from
+that result (Ok = the reply, or the PDU carried by the error). After receive() the application itself lets
+the association go, so there the close comes last.  The NFA has one chain of fresh states per edge; every state is accepting
 for prefixes, and `final` marks the model states in which both sides have ended.
 """
 import json
@@ -33,9 +38,8 @@ def events(action, s, k):
         "Recv": [f"take({s},{k})", f"ret({s},receive,Ok)"] + ([f"close({s})"] if k == "ABORT" else []),
         "RecvEof": [f"eof({s})", f"ret({s},receive,Closed)", f"close({s})"],
         "ReleaseReq": [f"put({s},RRQ)"],
-        "Wait": ([f"close({s})", f"take({s},RRP)", f"ret({s},release,Ok)"] if k == "RRP"
-                 else [f"take({s},{k})", f"ret({s},release,Unexpected)", f"close({s})"]),
-        "WaitEof": [f"eof({s})", f"ret({s},release,Closed)", f"close({s})"],
+        "Wait": [f"close({s})", f"take({s},{k})", f"ret({s},release,{'Ok' if k == 'RRP' else 'Unexpected'})"],
+        "WaitEof": [f"eof({s})", f"close({s})", f"ret({s},release,Closed)"],
         "Rsp": [f"put({s},RRP)", f"ret({s},send,Ok)", f"close({s})"],
         "Abort": [f"put({s},ABORT)", f"close({s})", f"ret({s},abort,Ok)"],
         "Drop": [f"close({s})"],
@@ -74,7 +78,7 @@ def parse_state(txt):
     return {"R": st.group(1), "A": st.group(2)}, {"R": op.group(1) == "TRUE", "A": op.group(2) == "TRUE"}, txt
 
 
-def build(dot, out, log=None):
+def build(dot, out, log=None, conf="FALSE"):
     nodes, init, edges = {}, None, []
     with open(dot) as f:
         for line in f:
@@ -85,7 +89,7 @@ def build(dot, out, log=None):
             m = NODE.match(line)
             if m and m.group(1) not in nodes:
                 nodes[m.group(1)] = parse_state(m.group(2))
-                if m.group(3):
+                if m.group(3) and f"conf = {conf}" in nodes[m.group(1)][2]:
                     if init is not None and init != m.group(1):
                         raise SystemExit("graph2nfa: more than one initial state")
                     init = m.group(1)
@@ -105,9 +109,9 @@ def build(dot, out, log=None):
                 num[b] = len(order)
                 order.append(b)
         i += 1
-    if len(order) != len(nodes):
-        raise SystemExit(f"graph2nfa: {len(nodes) - len(order)} dumped states are unreachable from the initial state")
-    graph = sorted({(num[a], num[b], lab[0], lab[1], lab[2]) for (a, b, lab) in edges})
+    if any(f"conf = {conf}" not in nodes[o][2] for o in order):
+        raise SystemExit("graph2nfa: the mode changed along a path")
+    graph = sorted({(num[a], num[b], lab[0], lab[1], lab[2]) for (a, b, lab) in edges if a in num})
     ended = {"Released", "Failed", "Aborted", "Closed"}
     final = [n for n in range(len(order)) if all(nodes[order[n]][0][s] in ended for s in "RA")]
     info = [{"st": nodes[o][0], "open": nodes[o][1]} for o in order]
@@ -134,7 +138,7 @@ def build(dot, out, log=None):
             tlc["depth"] = int(m.group(1))
         tlc["no_error"] = "No error has been found" in txt
     doc = {"model_states": len(order), "model_transitions": len(graph), "tlc": tlc,
-           "graph": [list(g) for g in graph], "final": final, "info": info,
+           "graph": [list(g) + [events(g[2], g[3], g[4])] for g in graph], "final": final, "info": info,
            "nfa_states": nstates, "nfa_edges": nfa_edges}
     with open(out, "w") as f:
         json.dump(doc, f)
@@ -162,7 +166,7 @@ def accept(doc, trace, complete):
 
 def paths(doc, k):
     succ = {}
-    for (a, b, act, s, kk) in doc["graph"]:
+    for (a, b, act, s, kk, _evs) in doc["graph"]:
         succ.setdefault(a, []).append((f"{act}({s}{',' + kk if kk else ''})", b))
     out = []
 
@@ -182,7 +186,8 @@ def paths(doc, k):
 def main(a):
     if len(a) >= 3 and a[0] == "build":
         log = a[a.index("--log") + 1] if "--log" in a else None
-        build(a[1], a[2], log)
+        conf = a[a.index("--conf") + 1] if "--conf" in a else "FALSE"
+        build(a[1], a[2], log, conf)
     elif len(a) >= 2 and a[0] == "accept":
         doc = json.load(open(a[1]))
         rest = [x for x in a[2:] if x != "--complete"]
